@@ -1113,8 +1113,12 @@ DLLIMPORT cfg_value_t *cfg_setopt(cfg_t *cfg, cfg_opt_t *opt, const char *value)
 
 			if (!val) {
 				val = cfg_addval(opt);
-				if (!val)
+				if (!val) {
+					/* nobody else will ever see the user-defined value */
+					if (opt->type == CFGT_PTR && p && opt->freecb)
+						opt->freecb(p);
 					return NULL;
+				}
 				added = 1;
 			}
 		} else {
